@@ -189,7 +189,10 @@ impl<A: SocketAddress> FdOp for SocketNameOp<A> {
         err: io::Error,
     ) -> io::Result<Self::Output> {
         match err.raw_os_error() {
-            Some(libc::EOPNOTSUPP) => {
+            // NOTE: can only use the system calls with file descriptors, a
+            // direct descriptor is an index into the ring's table, not a file
+            // descriptor of the process.
+            Some(libc::EOPNOTSUPP) if matches!(fd.kind(), fd::Kind::File) => {
                 let (ptr, length) = unsafe { A::as_mut_ptr(&mut (resources.0).0) };
                 let address_length = &mut (resources.0).1;
                 *address_length = length;
